@@ -67,9 +67,7 @@ theorem ordOk_of_noExc (IntOk : Int → Int → Prop)
   | .col _, _ => trivial
   | .cmp op a b, h =>
     ⟨fun h1 h2 => Gsu.QExpr.rawCmp_eq_compare _ _ (h.1 h1 h2).1
-        (fun m n hm hn => by
-          have := hint m n ((h.1 h1 h2).2 m n hm hn)
-          rw [hm, hn]; exact this ▸ rfl),
+        (fun m n hm hn => hint m n ((h.1 h1 h2).2 m n hm hn)),
       ordOk_of_noExc IntOk hint r a h.2.1, ordOk_of_noExc IntOk hint r b h.2.2⟩
   | .not a, h => ordOk_of_noExc IntOk hint r a h
   | .and a b, h => ⟨ordOk_of_noExc IntOk hint r a h.1, ordOk_of_noExc IntOk hint r b h.2⟩
@@ -93,9 +91,10 @@ theorem empty_exception_counter :
     evalRaw [] (.cmp .lt (.const (.str [])) (.const (.int 5))) = pack (.bool true) := by
   decide
 
-/-- known finding 9 (C13) at this level: `-13 < -10` in the language, not on the encodings -/
+/-- known finding 9 (C13) at this level: `-155 < -150` in the language, not on the encodings
+(the digit string of -150 is a prefix of that of -155 and the exponents are equal) -/
 theorem neg_prefix_counter :
-    QVal.compare (.int (-13)) (.int (-10)) = .lt ∧ rawCmp (.int (-13)) (.int (-10)) = .gt := by
+    QVal.compare (.int (-155)) (.int (-150)) = .lt ∧ rawCmp (.int (-155)) (.int (-150)) = .gt := by
   decide
 
 /-! ### (G) -/
@@ -124,8 +123,12 @@ example : NoExc (fun _ _ => True) [(0, .int 3), (1, .str [97])]
     (.and (.cmp .lt (.col 0) (.const (.int 5))) (.cmp .gte (.col 1) (.const (.str [])))) := by
   refine ⟨⟨fun _ _ => ⟨?_, fun _ _ _ _ => trivial⟩, trivial, trivial⟩,
     ⟨fun _ _ => ⟨?_, fun _ _ _ _ => trivial⟩, trivial, trivial⟩⟩
-  · rintro (⟨h, _⟩ | ⟨h, _⟩) <;> simp [eval, get, List.lookup] at h
-  · rintro (⟨_, h⟩ | ⟨_, h⟩) <;> simp [eval, get, List.lookup, ord] at h
+  · rintro (⟨h, _⟩ | ⟨h, _⟩)
+    · exact absurd h (by decide)
+    · exact absurd h (by decide)
+  · rintro (⟨_, h⟩ | ⟨_, h⟩)
+    · exact absurd h (by decide)
+    · exact absurd h (by decide)
 
 -- `PackInj` holds on a sample of values (C13 proves it for all)
 example : ∀ a ∈ [Val.bool true, .int 0, .int 5, .int (-5), .int 50, .int 500, .str [], .str [0], .str [3]],
